@@ -83,6 +83,12 @@ func checkC09(c *Ctx) {
 	c.Rule("C09-R20", "printable characters in the terminal's character set: the ACS glyph is the byte of the acsc string itself, not the UTF-8 of the code point with that number (whose second byte is a C1 control on an 8-bit line; = C17-R3)")
 	c.Expect("C09-R20", 60)
 	c.asRule("C17-R3", "C09-R20", func() { c17Acs(c, p) })
+	c.Rule("C09-R21", "everything written parses as complete sequences, also when two goroutines draw: a frame is flushed by draw itself under the screen's mutex, from a buffer reset at its start (written after the lock is released, the next frame refills the array the write is still reading; = C13-R16)")
+	c.Expect("C09-R21", 1)
+	checkFrameBufferStartsEmpty(c, p, "C09-R21")
+	c.Rule("C09-R22", "OSC strings carry what was meant: text spliced into a capability is a constant, the base64 text of the standard encoder (EncodeToString), or written by the text-emitter wrapper (a hand-sized Encode buffer leaves NUL bytes inside the OSC; = C15-R7)")
+	c.Expect("C09-R22", 2)
+	checkTextNotPadded(c, p, "C09-R22")
 	c.Rule("C09-R15", "numeric parameters only: %d writes the decimal form of the number it pops, by strconv or by a helper decided by constant evaluation over -1000..70000 (a helper short of digits writes ':' ';' '<' or control bytes into the CSI; = C15-R10)")
 	c.Expect("C09-R15", 1)
 	c.asRule("C15-R10", "C09-R15", func() { checkDecimalOutput(c, p, "C15-R10") })
